@@ -160,8 +160,12 @@ def case_strategy(draw):
         via_from = set(names_top)
     elif form == "mixed":
         via_from = {n for n in sorted(names_top) if draw(st.booleans())}
+    renamed = {}
     if via_from:
-        lines.append("from lib import " + ", ".join(sorted(via_from)))
+        for n in sorted(via_from):
+            if draw(st.integers(0, 4)) == 0:
+                renamed[n] = "alias_" + n.strip("_")  # from lib import f as alias_f
+        lines.append("from lib import " + ", ".join(f"{n} as {renamed[n]}" if n in renamed else n for n in sorted(via_from)))
     if form in ("module", "mixed") and names_top - via_from:
         lines.append("import lib")
     if form == "alias":
@@ -172,10 +176,14 @@ def case_strategy(draw):
             return ""
         return "L." if form == "alias" else "lib."
 
+    def local(name):
+        return renamed.get(name, name)
+
     for d in chosen_top:
-        lines.append("print(repr(" + d["use"].replace("{A}", acc_of(d["name"])) + "))")
+        use = d["use"].replace("{A}" + d["name"], "{A}" + local(d["name"]), 1)
+        lines.append("print(repr(" + use.replace("{A}", acc_of(d["name"])) + "))")
     for d in chosen_members:
-        lines.append("print(repr(" + d["use"].replace("{C}", acc_of(d["owner"]) + d["owner"]) + "))")
+        lines.append("print(repr(" + d["use"].replace("{C}", acc_of(d["owner"]) + local(d["owner"])) + "))")
     client = "\n".join(lines) + "\n"
     preserve = names_top | {d["name"] for d in chosen_members}
     if any(d["kind"] == "class" for d in chosen_top):
